@@ -90,6 +90,10 @@ impl Visitor<StatementPos> for InstructionGenerator {
                 );
             }
             Statement::Exit(_) => {
+                // leaving the bodies of all enclosing FOR loops: drop their register frames
+                for _ in 0..self.for_path.len() {
+                    self.push(Instruction::PopRegisters, pos);
+                }
                 self.push(Instruction::PopRet, pos);
             }
             Statement::Comment(_) => {}
